@@ -28,6 +28,14 @@ def fixed_cases():
                                         "u2": {"constructor": "fx.NewA", "arguments": ["@f"]}, "ok": {"constructor": "fx.NewB", "arguments": [2**63]}}},
         {"meta": dict(fx), "services": {"v1": {"value": "fx.Global"}, "v2": {"value": "&fx.GlobalVal"}, "v3": {"value": "fx.Obj{}"}, "v4": {"value": "&fx.Obj{}"},
                                         "t1": {"type": "*fx.Obj"}, "t2": {"type": "fx.Obj"}, "c": {"constructor": "fx.NewA", "arguments": ["@v1", "@v2", "@v3", "@v4", "@t1", "@t2"]}}},
+        # literals that PRINT alike but differ in YAML type, in every position and across services and parameters:
+        # each must keep its own type and value (no sharing between equal-looking arguments)
+        {"meta": dict(fx), "parameters": {"pi": 10, "ps": "10", "pb": True, "pbs": "true", "pn": None, "pns": "<nil>", "pf": 1.5, "pfs": "1.5"},
+         "services": {
+            "a": {"constructor": "fx.NewA", "arguments": [8080, "8080", "8080", 8080, True, "true", 1.5, "1.5", None, "<nil>", "nil"]},
+            "b": {"constructor": "fx.NewB", "arguments": ["10", 10], "fields": {"F1": "true", "F2": True}, "calls": [["Call1", [3]], ["With1", ["3"], True], ["Call2", ["%pi%", "%ps%", "%pb%", "%pbs%"]]]},
+            "c": {"constructor": "fx.NewC", "arguments": ["%pn%", "%pns%", "%pf%", "%pfs%", 10, "10"]}},
+         "decorators": []},
     ]
 
 
